@@ -396,6 +396,46 @@ def const_expr(path):
         _CONST_NEST[0] -= 1
 
 
+def _last_generic_arg(path, owner):
+    """`…::owner::<T, X>::method` -> 'X' (last top-level generic argument of `owner`)."""
+    i = path.find(owner + '::<')
+    if i < 0:
+        return None
+    j = i + len(owner) + 3
+    depth, start, last = 1, j, None
+    k = j
+    while k < len(path):
+        ch = path[k]
+        if ch == '<':
+            depth += 1
+        elif ch == '>' and path[k - 1] != '-':
+            depth -= 1
+            if depth == 0:
+                last = path[start:k]
+                break
+        elif ch == ',' and depth == 1:
+            start = k + 1
+        k += 1
+    return last.strip() if last else None
+
+
+def const_call(callee_short, full):
+    """Calls that are spellings of a type-level constant: `<N as Unsigned>::to_usize()` is `<N as Unsigned>::USIZE`, and
+    `DenseMatrix::<T, C>::columns()` is `C::USIZE` (dense.rs: `const fn columns(&self) -> usize { C::USIZE }`, checked by R19.4).
+    Returns the ('kc', name, 'usize') node, or None."""
+    if not full:
+        return None
+    if callee_short.endswith('Unsigned::to_usize'):
+        mm = re.match(r'^<(.*) as ([\w:]+)>::to_usize$', full.strip())
+        if mm:
+            return ('kc', short_const(f'<{mm.group(1)} as {mm.group(2)}>::USIZE'), 'usize')
+    if callee_short == 'lightmotif::dense::DenseMatrix::columns':
+        c = _last_generic_arg(full, 'DenseMatrix')
+        if c:
+            return ('kc', short_const(f'<{c} as typenum::marker_traits::Unsigned>::USIZE'), 'usize')
+    return None
+
+
 def short_const(p):
     """Name of an unevaluated constant.  Associated constants of a trait (`<T as Unsigned>::USIZE`) keep their Self type as a prefix
     `<T>::`: `A::K::USIZE`, `C::USIZE` and `C::Quotient::USIZE` are different quantities and must not compare equal."""
